@@ -2076,7 +2076,13 @@ def compile_require(compiler, expr, root, entries):
                     String(module_name),
                     Dict(),
                     Keyword("assignments"),
-                    List([(String(m), String(m)) for _, m, _ in reqs])])]).replace(expr))
+                    (
+                        String(assignments)
+                        if isinstance(assignments, str)
+                        else List([List([String(k), String(v)]) for k, v in assignments])
+                    ),
+                    Keyword("prefix"),
+                    String(prefix)])]).replace(expr))
             ret += ret.expr_as_stmt()
         elif (rest or not readers) and require(
                 module_name,
